@@ -60,23 +60,28 @@ Proof. exact date_roundtrip. Qed.
 Theorem C34_date_of_instant : forall d s, 0 <= s < TICKS_PER_DAY -> ts_to_date (date_to_ts d + s) = d.
 Proof. exact date_of_instant. Qed.
 
-(* 6. With a time zone, date_to_ts(date, zone) followed by ts_to_dt(.., zone).date().  The full statement: *)
-Definition C34_date_zone_statement : Prop := forall z, In z bundled_zones -> forall oob d,
-  adt_date (ts_to_dt oob (date_to_ts_zone oob d z) z) = d.
-
-(* ... is violated by the unchanged code (known finding C34-date-to-ts-zone-offset): *)
-Theorem C34_date_zone_refuted : ~ C34_date_zone_statement.
+(* 6. With a time zone (date_to_ts after fix 8feac94): for every bundled zone and every date that exists in the
+   zone, date_to_ts(date, zone) followed by ts_to_dt(.., zone).date() returns the date; the result is local
+   midnight exactly, unless local midnight is skipped on that date (then no instant renders as it and the result
+   is in the first hours of the date).  [date_exists] is a decidable hypothesis; it is false only where a zone
+   skipped a whole calendar day (7 zone/date pairs in the bundle, e.g. C34_kwajalein_skipped_day). *)
+Theorem C34_date_zone_roundtrip : forall z, In z bundled_zones -> forall oob d,
+  date_exists z d = true ->
+  let t := date_to_ts_zone oob d z in
+  adt_date (ts_to_dt oob t z) = d /\
+  (dt_local (ts_to_dt oob t z) = date_to_ts d \/ forall ts, dt_local (ts_to_dt oob ts z) <> date_to_ts d).
 Proof.
-  intros H. destruct date_zone_refuted as [z [d [Hin Hne]]]. apply Hne. apply H. exact Hin.
+  intros z Hin. apply date_zone_roundtrip; [apply bundled_zone_ok | apply bundled_zone_date_ok]; exact Hin.
 Qed.
 
-(* ... and holds (it is exactly local midnight) whenever the instant returned still has the offset that was in
-   effect at UTC midnight of the date, which is the offset date_to_ts uses. *)
-Theorem C34_date_zone_roundtrip_partial : forall z, In z bundled_zones -> forall oob d,
-  let t := date_to_ts_zone oob d z in
-  zone_offset oob z t = zone_offset oob z (date_to_ts d) ->
-  dt_local (ts_to_dt oob t z) = date_to_ts d /\ adt_date (ts_to_dt oob t z) = d.
-Proof. intros z Hin. apply date_zone_roundtrip_partial. apply bundled_zone_ok. exact Hin. Qed.
+(* The hypothesis is no stronger than "some instant has this local date": *)
+Theorem C34_date_exists_complete : forall z, In z bundled_zones -> forall oob d ts,
+  adt_date (ts_to_dt oob ts z) = d -> date_exists z d = true.
+Proof. intros z Hin. apply date_exists_complete. apply bundled_zone_ok. exact Hin. Qed.
+
+(* The per-zone date check holds for every bundled zone (vm_compute over the regenerated data). *)
+Theorem C34_all_zones_date_ok : forallb zone_date_ok bundled_zones = true.
+Proof. exact all_zones_date_ok. Qed.
 
 (* 7. List subscripts of the translated code are in range whenever they are evaluated under their guard, and
    no result depends on the value an out-of-range subscript would yield. *)
@@ -126,15 +131,26 @@ Example C34_skipped_hour :
   dt_local (ts_to_dt 0 (local_to_ts 0 tz_America_Los_Angeles L None) tz_America_Los_Angeles) = L - 3600 * s.
 Proof. cbv zeta. repeat split; vm_compute; reflexivity. Qed.
 
-(* the known finding, concretely: Australia/Sydney, 2024-10-06 (day 20002) comes back as day 20001, local
-   23:00 of the day before; and a date on which the hypothesis of the partial theorem holds *)
+(* regression example of the repaired date_to_ts (formerly known finding C34-date-to-ts-zone-offset): the date
+   exists, comes back, and the result is local midnight (the old code gave 2024-10-05 23:00 local) *)
 Example C34_sydney_date :
   let t := date_to_ts_zone 0 20002 tz_Australia_Sydney in
-  adt_date (ts_to_dt 0 t tz_Australia_Sydney) = 20001 /\
-  dt_local (ts_to_dt 0 t tz_Australia_Sydney) = date_to_ts 20002 - 3600000 * TICKS_PER_MS.
+  date_exists tz_Australia_Sydney 20002 = true /\
+  adt_date (ts_to_dt 0 t tz_Australia_Sydney) = 20002 /\
+  dt_local (ts_to_dt 0 t tz_Australia_Sydney) = date_to_ts 20002.
 Proof. exact sydney_date_example. Qed.
 
-Example C34_date_zone_partial_nonvacuous :
-  zone_offset 0 tz_Australia_Sydney (date_to_ts_zone 0 20003 tz_Australia_Sydney) =
-  zone_offset 0 tz_Australia_Sydney (date_to_ts 20003).
-Proof. vm_compute. reflexivity. Qed.
+(* a date outside the hypothesis: Kwajalein skipped 1993-08-21 (day 8633); no instant has that local date, and
+   there is no local midnight of it at all, so the property cannot ask for one *)
+Example C34_kwajalein_skipped_day :
+  date_exists tz_Kwajalein 8633 = false /\
+  (forall oob ts, adt_date (ts_to_dt oob ts tz_Kwajalein) <> 8633) /\
+  (forall oob ts, dt_local (ts_to_dt oob ts tz_Kwajalein) <> date_to_ts 8633).
+Proof. exact kwajalein_skipped_day. Qed.
+
+(* a skipped local midnight on an existing date: America/Sao_Paulo 2017-10-15 (day 17454), DST starts at 00:00 *)
+Example C34_skipped_midnight :
+  let z := tz_America_Sao_Paulo in
+  date_exists z 17454 = true /\ adt_date (ts_to_dt 0 (date_to_ts_zone 0 17454 z) z) = 17454 /\
+  dt_local (ts_to_dt 0 (date_to_ts_zone 0 17454 z) z) = date_to_ts 17454 + 3600000 * TICKS_PER_MS.
+Proof. cbv zeta. repeat split; vm_compute; reflexivity. Qed.
